@@ -5,6 +5,7 @@ package cmd
 
 import (
 	"io/ioutil"
+	"math/rand"
 	"net/http"
 	"net/http/httptest"
 	"os"
@@ -195,5 +196,33 @@ func TestDemoD11CopyPropagationCorruptsMatchingSlot(t *testing.T) {
 		ArchiveID: ArchiveIDAll, TextOut: "", Until: now}
 	if err := df.Execute(); err != nil {
 		t.Fatalf("diff after a successful copy: %v", err)
+	}
+}
+
+// D14 (C20.R5): layout 1s:60s,1m:1h generated at an instant in the last second
+// of a minute: the 60 finer points start exactly at the newest coarser slot,
+// which is therefore fully covered, and it held a plain random value instead of
+// their sum (fixed by a64fc04; passes on the repaired tree).
+func TestDemoD14GenerateNewestCoarseSlotCovered(t *testing.T) {
+	rets, err := whispertool.ParseArchiveInfoList("1s:60s,1m:1h")
+	if err != nil {
+		t.Fatal(err)
+	}
+	m := whispertool.Timestamp(1600000020) // a whole minute
+	for _, now := range []whispertool.Timestamp{m + 58, m + 59} {
+		rnd := rand.New(rand.NewSource(1))
+		pl := randomPointsList(rets, rnd, 100, now, now)
+		fine, coarse := pl[0], pl[1]
+		last := coarse[len(coarse)-1]
+		sum, n := whispertool.Value(0), 0
+		for _, p := range fine {
+			if p.Time.Truncate(whispertool.Minute) == last.Time {
+				sum += p.Value
+				n++
+			}
+		}
+		if n == 60 && last.Value != sum {
+			t.Errorf("now=minute+%d: the newest coarser slot is covered by 60 finer slots summing to %s but holds %s", now-m, sum, last.Value)
+		}
 	}
 }
